@@ -231,6 +231,10 @@ class SimA(SimBase):
         for k, v in (headers or {}).items():
             if v is None:
                 hs = [h for h in hs if h[0] != k.lower().encode()]
+            elif isinstance(v, (list, tuple)):
+                for one in v:       # a repeated header line
+                    hs.append((k.lower().encode('latin-1'),
+                               one.encode('latin-1', 'replace')))
             else:
                 hs.append((k.lower().encode('latin-1'),
                            v.encode('latin-1', 'replace')))
